@@ -1,6 +1,7 @@
 """C08 - UTF-8/16/32 conversions, code-point iteration, case mapping (src/String.cpp, src/unicodedata.cpp)"""
 from vf.core import Unit, Cut, ifdef_rule
 from units.common import *
+from vf import replay
 
 S, H, UD = 'src/String.cpp', 'include/asl/String.h', 'src/unicodedata.cpp'
 NOANSI = ifdef_rule('ASL_ANSI', False)
@@ -64,6 +65,7 @@ void vf_harness(void) {
     desc='for EVERY Unicode scalar value (1..0x10FFFF without surrogates) at once: UTF-32->UTF-8 is table 3-6, ->UTF-32 is the identity, '
          'UTF-8->UTF-16 is table 3-5, ->UTF-8 is the identity',
     functions=['utf32toUtf8', 'utf8toUtf32', 'utf8toUtf16', 'utf16toUtf8'],
+    replay=replay.from_trace('C08/driver.cpp', ['c'], lambda v: ['value', v['c']]),
     planted=[('utf16toUtf8', r'\+ 0x10000', '| 0x10000'), ('utf32toUtf8', r'c < 0x0800', 'c <= 0x0800')],
 )
 
@@ -230,7 +232,7 @@ void vf_harness(void) {
   VF_CANARY();
 }
 ''',
-    entry=None, unwind=4, floor=10, expect=['assertion'],
+    entry=None, unwind=4, floor=10, expect=['assertion'], replay=replay.from_trace('C08/driver.cpp', ['c'], lambda v: ['value', v['c']]),
     desc='for EVERY scalar value: the enumerator decodes the standard encoding to the same value and advances by its length',
     functions=['String::Enumerator::operator*'],
 )
